@@ -113,7 +113,7 @@ func c11(r *rep.Run) {
 	if r.Thorough() {
 		r.SetBudget(1800e9)
 	}
-	r.Rule = "(1) explicit-state BFS over registration histories: initial states = every injective pre-population of <= 3 of the names {a,b,c} with keys from {-32768,-1,0,1,2,3,255,256,32767}; transitions = the real GetOrRegisterKey(name) for name in {a,b,c,d}; states (key maps) are deduplicated canonically; invariants on every transition: returned key = stored key, no existing assignment changes, the map stays injective. Scaled families: maps pre-populated with keys 1..n (n around 64, 128, 256 and every n <= 70, with and without one hole) followed by three registrations. (2) for every reached layout in which a..d are all registered x {undefined-variable mode off,on}: compile the positional expression (+ (* a 1) (* b 10) (* c 100) (* d 1000)) and evaluate it through NewCtxFromVars (library picks slice or map fetcher), NewMapVarFetcher, NewSliceVarFetcher (when the layout permits) and the package-level Eval with ExtendConf + extra unrelated bindings; registration also through RegVarAndOp. (3) every convertible Go type named in the statement as the bound value, through each fetcher constructor. Oracle: arithmetic identity / normalised value. non-trivial = layouts with a key outside 0..255 or with a hole below the largest key"
+	r.Rule = "(1) explicit-state BFS over registration histories: initial states = every injective pre-population of <= 3 of the names {a,b,c} with keys from {-32768,-1,0,1,2,3,255,256,32767}; transitions = the real GetOrRegisterKey(name) for name in {a,b,c,d}; states (key maps) are deduplicated canonically; invariants on every transition: returned key = stored key, no existing assignment changes, the map stays injective. Scaled families: maps pre-populated with keys 1..n (n around 64, 128, 256 and every n <= 70, with and without one hole) followed by three registrations. (2) for every reached layout in which a..d are all registered x {undefined-variable mode off,on}: compile the positional expression (+ (* a 1) (* b 10) (* c 100) (* d 1000)) and evaluate it through NewCtxFromVars (library picks slice or map fetcher), NewMapVarFetcher, NewSliceVarFetcher (when the layout permits) and the package-level Eval with ExtendConf + extra unrelated bindings; registration also through RegVarAndOp, alone and in one or two batches on top of every injective pre-keying of <= 2 of {a, z, e2} with keys from {-1, 0..10, 255, 256}. (3) every convertible Go type named in the statement as the bound value, through each fetcher constructor. Oracle: arithmetic identity / normalised value. non-trivial = layouts with a key outside 0..255 or with a hole below the largest key"
 	r.Assume = []string{"keys are drawn from a boundary alphabet of the int16 range, not all 65536 values", "names a..d stand for arbitrary distinct identifiers"}
 
 	keys := []eval.VariableKey{-32768, -1, 0, 1, 2, 3, 255, 256, 32767}
@@ -487,6 +487,88 @@ func c11RegVarAndOp(r *rep.Run, n *int64) {
 		}
 	}
 	r.Sample(12, map[string]interface{}{"registration": "RegVarAndOp(map of 7 variables + 1 operator) x 200 map iteration orders"})
+
+	// RegVarAndOp on top of EVERY pre-keyed base: injective assignments of at
+	// most two of {a, z, e2} to keys around the count of names (sparse and
+	// dense layouts), then one or two RegVarAndOp batches
+	keys := []eval.VariableKey{-1, 0, 1, 2, 3, 4, 5, 6, 7, 8, 9, 10, 255, 256}
+	names := []string{"a", "z", "e2"}
+	type base map[string]eval.VariableKey
+	bases := []base{{}}
+	for i, n1 := range names {
+		for _, k1 := range keys {
+			bases = append(bases, base{n1: k1})
+			for _, n2 := range names[i+1:] {
+				for _, k2 := range keys {
+					if k2 != k1 {
+						bases = append(bases, base{n1: k1, n2: k2})
+					}
+				}
+			}
+		}
+	}
+	b := c11Bindings[0]
+	want := b[0] + 10*b[1] + 100*b[2] + 1000*b[3]
+	var layouts int64
+	for _, bs := range bases {
+		for rep := 0; rep < 6; rep++ {
+			for batches := 1; batches <= 2; batches++ {
+				first := map[string]interface{}{"a": b[0], "b": b[1], "c": b[2], "d": b[3], "e1": int64(5), "e2": int64(6), "e3": int64(7)}
+				second := map[string]interface{}{}
+				if batches == 2 {
+					// the second batch re-mentions two names and brings three new ones
+					first = map[string]interface{}{"a": b[0], "c": b[2], "e1": int64(5), "e2": int64(6)}
+					second = map[string]interface{}{"b": b[1], "d": b[3], "e3": int64(7), "a": b[0], "e1": int64(5)}
+				}
+				pre := eval.NewConfig()
+				for k, v := range bs {
+					pre.VariableKeyMap[k] = v
+				}
+				cfg := eval.NewConfig(eval.ExtendConf(pre), eval.RegVarAndOp(first), eval.RegVarAndOp(second))
+				layouts++
+				d := map[string]interface{}{"pre_keyed": fmt.Sprint(map[string]eval.VariableKey(bs)), "batches": batches, "map": fmt.Sprint(cfg.VariableKeyMap)}
+				seen := map[eval.VariableKey]string{}
+				bad := false
+				for k, v := range cfg.VariableKeyMap {
+					if o, dup := seen[v]; dup {
+						r.Violate("register-duplicate-key", "regvarandop-base", sprintf("RegVarAndOp on a pre-keyed config gave %q and %q the same key %d", o, k, v), d)
+						bad = true
+					}
+					seen[v] = k
+				}
+				for k, v := range bs {
+					if cfg.VariableKeyMap[k] != v {
+						r.Violate("register-changes-key", "regvarandop-base", sprintf("RegVarAndOp changed the existing key of %q from %d to %d", k, v, cfg.VariableKeyMap[k]), d)
+						bad = true
+					}
+				}
+				if bad {
+					continue
+				}
+				vals := map[string]interface{}{"a": b[0], "b": b[1], "c": b[2], "d": b[3], "e1": int64(5), "e2": int64(6), "e3": int64(7)}
+				expr, w := c11Expr, want
+				if _, ok := bs["z"]; ok {
+					vals["z"] = int64(3)
+					expr, w = "(+ (* a 1) (* b 10) (* c 100) (* d 1000) (* z 100000) (* e2 1000000))", want+300000+6000000
+				}
+				e, err := eval.Compile(cfg, expr)
+				if err != nil {
+					r.Violate("compile", "regvarandop-base", sprintf("positional expression does not compile after RegVarAndOp on a pre-keyed config: %v", err), d)
+					continue
+				}
+				var got eval.Value
+				var gerr error
+				p, site := drive.Fence(func() { got, gerr = e.Eval(eval.NewCtxFromVars(cfg, vals)) })
+				atomic.AddInt64(n, 1)
+				if p != nil {
+					r.Violate("panic", "regvarandop-base", sprintf("evaluation after RegVarAndOp on a pre-keyed config panics at %s: %v", site, p), d)
+				} else if gerr != nil || got != eval.Value(w) {
+					r.Violate("wrong-variable", "regvarandop-base", sprintf("after RegVarAndOp on a pre-keyed config (keys %v): %v/%v instead of %d", cfg.VariableKeyMap, got, gerr, w), d)
+				}
+			}
+		}
+	}
+	r.Cov["regvarandop_on_prekeyed_layouts"] = layouts
 }
 
 // c11Types: every convertible Go type named in the statement, bound to a
@@ -524,6 +606,11 @@ func c11Types(r *rep.Run, n *int64) {
 	addInt("time.Duration(-1ns)", -time.Nanosecond, 0)
 	addInt("time.Duration(10000 days - 1ns)", 10000*24*time.Hour-time.Nanosecond, 10000*24*3600-1)
 	addInt("time.Time(year 9999)", time.Date(9999, 12, 31, 23, 59, 59, 999999999, time.UTC), time.Date(9999, 12, 31, 23, 59, 59, 0, time.UTC).Unix())
+	addInt("time.Time(zero value)", time.Time{}, time.Time{}.Unix())
+	addInt("time.Time(before epoch, fraction)", time.Unix(-2, 5e8), -2)
+	addInt("time.Time(1ns before epoch)", time.Unix(0, -1), -1)
+	addInt("time.Time(year 1677)", time.Date(1677, 1, 1, 0, 0, 0, 5, time.UTC), time.Date(1677, 1, 1, 0, 0, 0, 0, time.UTC).Unix())
+	addInt("time.Time(year 2263)", time.Date(2263, 1, 1, 0, 0, 0, 5, time.UTC), time.Date(2263, 1, 1, 0, 0, 0, 0, time.UTC).Unix())
 	addInt("time.Time(year 1)", time.Date(1, 1, 1, 0, 0, 0, 0, time.UTC), -62135596800)
 	cases = append(cases,
 		tc{"[]int", []int{3, -4, 5}, "(and (in -4 v) (not (in 4 v)) (overlap v (9 5)))"},
